@@ -2,7 +2,10 @@
 from props import C01 as _c
 
 ID = "C02"
-TRUSTED = _c.TRUSTED
+TRUSTED = _c.TRUSTED + [
+    "guess level: the reference language is computed by harness/guess_level.py from the description of the ruleset files alone (no code of /repo); "
+    "the strings of a Markov level come from harness/omen_gen.brute_levels on the lines of the Omen files; str.upper() of one letter is the "
+    "running interpreter's (supplied to Expand.v as a table)"]
 ASSUMES = _c.ASSUMES
 
 
